@@ -5,6 +5,7 @@ import Driver.PoolAcc
 import Driver.LockedAcc
 import Driver.SimpleAdderAcc
 import Driver.FineAcc
+import Driver.PoolStepAcc
 /-!
 Generic run loop for trace acceptors.  Input: runs separated by `reset …` lines and closed by `end`.
 Output per run: `ACCEPT <run> steps=<n> <summary>` or `REJECT <run> line=<n> :: <line> :: <reason>`;
@@ -119,5 +120,14 @@ def poolAcceptor : Acceptor PoolAcc.AccSt where
   pc := fun _ _ => "act"
   summary := fun st => s!"steps={st.steps} candidates={st.ws.length} maxset={st.maxSet}"
   stuck := fun _ => []
+
+def poolStepAcceptor : Acceptor PoolStepAcc.AccSt where
+  init := PoolStepAcc.initSt
+  line := PoolStepAcc.processLine
+  pc := fun st t => PoolStepAcc.pcName (PoolStepAcc.getTh st t).l
+  summary := PoolStepAcc.summary
+  stuck := PoolStepAcc.stuck
+  extraCov := fun st => st.extra
+  extraSteps := fun st => st.nsilent
 
 end Driver
